@@ -5,6 +5,8 @@
 mod canon;
 mod rng;
 mod props;
+mod progen;
+mod vmcanon;
 
 use std::collections::BTreeMap;
 use std::io::Write;
